@@ -824,12 +824,53 @@ theorem foldl_addSet_core (sets : List (List PTxn)) (s : State) : (sets.foldl St
   | nil => rfl
   | cons x l ih => simp only [List.foldl_cons]; rw [ih, addSet_core]
 
+/-- offering a set to the pool never removes a pooled transaction -/
+theorem addSet_poolV2_mono (s : State) (set : List PTxn) (p : PTxn) (h : p ∈ s.poolV2) :
+    p ∈ (s.addSet set).poolV2 := by
+  unfold State.addSet
+  split
+  · suffices key : ∀ (l : List PTxn) (st : State), p ∈ st.poolV2 →
+        p ∈ (l.foldl (fun st q =>
+          if st.poolV2.contains q then st
+          else if st.accepts true (q.ins.map (·.id)) then { st with poolV2 := st.poolV2 ++ [q] } else st) st).poolV2 from
+      key set s h
+    intro l
+    induction l with
+    | nil => intro st h; exact h
+    | cons q l ih =>
+      intro st h
+      simp only [List.foldl_cons]
+      apply ih
+      split
+      · exact h
+      · split
+        · simp [h]
+        · exact h
+  · exact h
+
+theorem foldl_addSet_poolV2_mono (sets : List (List PTxn)) (s : State) (p : PTxn) (h : p ∈ s.poolV2) :
+    p ∈ (sets.foldl State.addSet s).poolV2 := by
+  induction sets generalizing s with
+  | nil => exact h
+  | cons x l ih => exact ih _ (addSet_poolV2_mono s x p h)
+
+/-- a set of one transaction that passes the pool's test alone on the tip and on the current pool
+ends up in the pool -/
+theorem addSet_single (s : State) (p : PTxn)
+    (h1 : ({ s with poolV1 := [], poolV2 := [] } : State).accepts true (p.ins.map (·.id)) = true)
+    (h2 : s.accepts true (p.ins.map (·.id)) = true) : p ∈ (s.addSet [p]).poolV2 := by
+  unfold State.addSet
+  simp only [State.validSet, h1, Bool.and_true, ↓reduceIte, List.foldl_cons, List.foldl_nil]
+  split
+  · rename_i hc; simpa using hc
+  · simp [h2]
+
 theorem inv_restart (s : State) (f : Bool) : Inv (s.restart f) := by
   unfold State.restart
   simp only
-  have : ∀ s0 : State, s0.out = [] → s0.locked = (fun _ => 0) → Inv (s.bsets.foldl State.addSet s0) := by
+  have : ∀ s0 : State, s0.out = [] → s0.locked = (fun _ => 0) → Inv (s.reloadable.foldl State.addSet s0) := by
     intro s0 ho hl
-    have hc := foldl_addSet_core s.bsets s0
+    have hc := foldl_addSet_core s.reloadable s0
     unfold Inv
     simp only [State.core, Prod.mk.injEq] at hc
     rw [hc.1, hc.2.1, hc.2.2.1, hc.2.2.2, ho, hl]
@@ -875,6 +916,7 @@ theorem inv_step (S : Sorter) (s : State) (h : Inv s) (hn : (s.utxos.map (·.id)
   | env u hh ch p1 p2 => exact inv_of_core h rfl
   | lag k => exact inv_of_core h rfl
   | sync => exact inv_of_core h rfl
+  | stale => exact inv_of_core h rfl
 
 theorem inv_init (cfg : Cfg) : Inv (State.init cfg) := inv'_restart _ _
 
